@@ -114,8 +114,9 @@ def build(rc: RuleCtx, qual: str, bind: Optional[Dict[str, Any]] = None) -> Loop
         out = ev.eval_loop_body(fi, loop, benv)
     except Unsupported as e:
         raise AnalysisError(f"{qual}: loop body not modelled: {e}")
-    if out.breaks or out.continues or out.returns:
-        raise AnalysisError(f"{qual}: break/continue/return inside the work-stack loop")
+    # `continue` only skips the rest of one step (the evaluator gates what follows it); leaving the loop early is another algorithm
+    if out.breaks or out.returns:
+        raise AnalysisError(f"{qual}: break/return inside the work-stack loop")
     left, right = out.env.get("left"), out.env.get("right")
     # the popped range: the two names unpacked from the pop that bound the slice points[left:right]
     pop_st = None
